@@ -168,6 +168,9 @@ func c14(c *ctx) {
 	if err != nil {
 		die("concurrent run: %v", err)
 	}
+	if cp.WatchdogHits > 0 {
+		c.run.Incon(fmt.Sprintf("%d child processes were stopped by the wall-clock watchdog", cp.WatchdogHits))
+	}
 	for i, q := range conc {
 		res := concRes[i]
 		if res.Lost {
